@@ -1473,8 +1473,9 @@ impl ReaderState {
         let parent_tag = self.get_parent_tag().to_string();
         let expr = attr.get(ATTR_EXPR);
 
+        // "<content ..></content>" is the same element as "<content ../>": no children.
         let content = if has_content {
-            Some(self.read_content(TAG_CONTENT, reader))
+            Some(self.read_content(TAG_CONTENT, reader)).filter(|c| !c.is_empty())
         } else {
             None
         };
@@ -1630,15 +1631,19 @@ impl ReaderState {
             assign.expr = self.create_source(expr_value);
         }
 
-        let assign_text = if has_content {
-            format!(
-                "\"{}\"",
-                self.read_content(TAG_ASSIGN, reader)
-                    .replace("\"", "\\\"")
-                    .replace("\n", " ")
-            )
+        // "<assign ..></assign>" is the same element as "<assign ../>": no content.
+        let assign_content = if has_content {
+            self.read_content(TAG_ASSIGN, reader)
         } else {
             String::new()
+        };
+        let assign_text = if assign_content.is_empty() {
+            String::new()
+        } else {
+            format!(
+                "\"{}\"",
+                assign_content.replace("\"", "\\\"").replace("\n", " ")
+            )
         };
 
         let assign_src = assign_text.trim();
